@@ -396,6 +396,10 @@ class Analysis:
                 return st[key]
             if T.get("k") == "array":
                 return AV(1, (1 << 64) - 1)
+            caps = getattr(self, "member_caps", None)
+            if caps and e.get("f") in caps and T.get("k") == "int":
+                r = type_range(T)
+                return AV(max(r.lo, 0), min(r.hi, caps[e["f"]]))
             return type_range(T)
         if k == "cast":
             ck = e.get("ck")
